@@ -104,6 +104,20 @@ class FormatExtractor(string.Formatter):
         self.watch_results = watch_results
         self.var_lookup = var_lookup
 
+    def vformat(self, format_string, args, kwargs):
+        """
+        Format the message: the literal text as it is, and each field replaced by its evaluation.
+
+        Not the vformat of python: that numbers empty fields ({} becomes the expression 0) and refuses templates that
+        have an empty field and a number as fields. A field is an expression here, never an index into arguments.
+        """
+        parts = []
+        for literal, field_name, _, _ in self.parse(format_string):
+            parts.append(literal)
+            if field_name is not None:
+                parts.append(self.get_field(field_name, args, kwargs)[0])
+        return ''.join(parts)
+
     def parse(self, format_string):
         """
         Split the message into literal text and {expression} fields.
